@@ -25,7 +25,7 @@ M_Sizes == 1..21
 Known(r)    == \E m \in Methods : m.c = r.c /\ m.m = r.m /\ m.a = r.a /\ m.v = r.v
 MethodOf(r) == CHOOSE m \in Methods : m.c = r.c /\ m.m = r.m /\ m.a = r.a /\ m.v = r.v
 
-EvOf(r) == [act |-> r.act, c |-> r.c, m |-> r.m, a |-> r.a, v |-> r.v, safe |-> r.safe, cls |-> r.cls,
+EvOf(r) == [act |-> r.act, c |-> r.c, m |-> r.m, a |-> r.a, v |-> r.v, safe |-> r.safe, io |-> r.io, cls |-> r.cls,
             S |-> ToSet(r.S), n |-> r.n, res |-> r.res, ret |-> r.ret, ntf |-> r.ntf, valid |-> r.valid]
 
 Flag(ok, prop, pred, r, tags) ==
@@ -41,7 +41,7 @@ Tags(r) ==
 
 KindOf(r) ==
   IF r.act = "verify" THEN (IF VerifyAccepts(r.cls, ToSet(r.S)) THEN "accept" ELSE "reject")
-  ELSE Kind(r.safe, r.cls, ToSet(r.S), r.n)
+  ELSE Kind(r.safe, r.io, r.cls, ToSet(r.S), r.n)
 
 JudgeInvoke(r) ==
   LET e == EvOf(r)
@@ -53,7 +53,7 @@ JudgeInvoke(r) ==
       /\ Flag((r.wch <=> world' # world) /\ (r.tch <=> tok' # tok), "DRIFT", "Digest", r, t)
       /\ Flag(Known(r), "DRIFT", "Table", r, t)
       /\ Known(r) =>
-           /\ Flag(MethodOf(r).safe = r.safe /\ ClassOf(MethodOf(r)) = r.cls, "DRIFT", "Table", r, t)
+           /\ Flag(MethodOf(r).safe = r.safe /\ MethodOf(r).io = r.io /\ ClassOf(MethodOf(r)) = r.cls, "DRIFT", "Table", r, t)
            /\ Flag(r.safe = r.msafe, "DRIFT", "SafeFlag", r, t)
            /\ Flag(ToSet(r.S) = Norm(ToSet(r.S0), r.cls, r.n), "DRIFT", "SignerNorm", r, t)
            /\ Flag(KindOf(r) = r.kind, "DRIFT", "Kind", r, t)
